@@ -14,6 +14,15 @@
  *      the space, local, and without input dependency is handed to the scheduler exactly once, as a task carrying exactly
  *      that point's locals (derived locals included), the class, the taskpool and its priority; marked as startup task
  *      exactly once; no other instance is produced;  and (a)/(b) agree: startup instances are among the counted ones.
+ *      Jobs startup.*        : one call that answers DONE, placement / vpid_of / priority / startup_iter symbolic.
+ *      Jobs startup_chunked.*: the chunked generation.  parsec_task_startup_chunk, parsec_task_startup_iter, the placement
+ *      (PLACE) and vpid_of (NO_VPID_OF / VP_TABLE) are FIXED per cbmc process, so that the control flow of every call is
+ *      concrete; the generator is called again and again on the same, untouched task object while it answers AGAIN (what
+ *      __parsec_task_progress does: C16), up to RMAX calls; __parsec_schedule_vp (stub) consumes and CLEARS the rings it is
+ *      given.  Same obligations over all calls together + "yields only after more than chunk new tasks" + non-vacuity lemma
+ *      "the configuration re-enters the generator at least MIN_CALLS-1 times".
+ *      (Measured: with anything symbolic that decides a branch -- placement, myrank, chunk -- the state at the restore_context
+ *      jump is a merge, the loop counters and ring pointers become symbolic and CBMC 6.11 does not finish: > 10 min, > 6 GB.)
  */
 #include "verif.h"
 #include "parsec/parsec_config.h"
@@ -49,19 +58,31 @@ static int g_visit[BOX][BOX][BOX];          /* startup: tasks handed to the sche
 static int g_marked[BOX][BOX][BOX];         /* startup: mark_task_as_startup calls, per point          */
 static int g_rank_calls[BOX][BOX];          /* evaluations of the placement, per affinity arguments    */
 static int g_rank_outside;
-static int g_alloc, g_scheduled;
+static int g_alloc, g_scheduled, g_calls;
 static int g_bad_point, g_bad_task, g_bad_distance;
 
 /* ---- what the two functions reach outside the generated unit ---- */
 size_t parsec_task_startup_iter, parsec_task_startup_chunk;
 int parsec_debug_output;
 
+#ifdef STATIC_POOL
+static parsec_task_t h_p0, h_p1, h_p2, h_p3, h_p4, h_p5, h_p6, h_p7, h_p8;
+static parsec_task_t *h_pool_slot(int k)
+{
+    switch (k) { case 0: return &h_p0; case 1: return &h_p1; case 2: return &h_p2; case 3: return &h_p3; case 4: return &h_p4;
+                 case 5: return &h_p5; case 6: return &h_p6; case 7: return &h_p7; default: return &h_p8; }
+}
+#endif
 void *parsec_thread_mempool_allocate_when_empty(parsec_thread_mempool_t *tm)
 {
     (void)tm;
     V_ASSERT(g_alloc < NPOOL, "C01.startup.post.no_more_tasks_than_points_of_the_box");
     g_alloc++;
+#ifdef STATIC_POOL       /* chunked jobs: everything static, one object per task (separate objects, not an array) */
+    return h_pool_slot(g_alloc - 1);
+#else
     return malloc(sizeof(parsec_task_t));
+#endif
 }
 #ifndef VERIF_REPLAY
 void parsec_output(int id, const char *fmt, ...) { (void)id; (void)fmt; }
@@ -249,6 +270,23 @@ static void setup(void)
     vin.g[0] = FIX_G0; vin.g[1] = FIX_G1; vin.g[2] = FIX_G2;
 #endif
     for (int a = 0; a < BOX; a++) for (int b = 0; b < BOX; b++) V_ASSUME(vin.vp[a][b] < 2 * NVP);
+#ifdef FIX_CHUNK          /* chunking parameters fixed per cbmc process (enumerated by spec.py) */
+    vin.startup_chunk = FIX_CHUNK;
+#endif
+#ifdef FIX_ITER
+    vin.startup_iter = FIX_ITER;
+#endif
+#ifdef NO_VPID_OF         /* the collection has no vpid_of: tasks are spread round-robin over the (one) virtual process */
+    vin.has_vpid_of = 0;
+#endif
+#ifdef VP_TABLE           /* the collection has a vpid_of, fixed per cbmc process: bit (x*BOX+y) set = vpid 1 (too large: folded by the code) */
+    vin.has_vpid_of = 1;
+    for (int a = 0; a < BOX; a++) for (int b = 0; b < BOX; b++) vin.vp[a][b] = ((VP_TABLE) >> (a * BOX + b)) & 1;
+#endif
+#ifdef PLACE              /* chunked jobs: placement fixed per cbmc process: bit (x*BOX+y) of PLACE set = (x,y) is NOT local */
+    for (int a = 0; a < BOX; a++) for (int b = 0; b < BOX; b++) vin.owner[a][b] = ((PLACE) >> (a * BOX + b)) & 1;
+    vin.myrank = 0;
+#endif
     parsec_task_startup_iter = vin.startup_iter;
     parsec_task_startup_chunk = vin.startup_chunk;
     dc.myrank = vin.myrank;
@@ -295,10 +333,16 @@ void h_startup(void)
     vin_load();
     setup();
     int rc = PARSEC_HOOK_RETURN_AGAIN;
+    /* The runtime's part of the protocol (scheduling.c __parsec_task_progress, contract: C16): a hook that answers AGAIN
+     * is invoked again later on the SAME task object, left untouched in between. */
     for (int r = 0; r < RMAX && rc == PARSEC_HOOK_RETURN_AGAIN; r++) {
+        int before = g_scheduled;
         rc = STARTUP_FN(&es[0], &gen_task);
+        g_calls++;
         V_ASSERT(rc == PARSEC_HOOK_RETURN_AGAIN || rc == PARSEC_HOOK_RETURN_DONE, "C01.startup.post.answers_AGAIN_or_DONE");
         V_ASSERT(g_alloc == g_scheduled, "C01.startup.post.every_created_task_handed_to_scheduler_before_yielding");
+        V_ASSERT(V_IMPLIES(rc == PARSEC_HOOK_RETURN_AGAIN, (uint64_t)(g_scheduled - before) > vin.startup_chunk),
+                 "C01.startup.post.yields_only_after_more_than_chunk_new_tasks");
     }
 #ifdef ONE_CALL
     V_ASSUME(rc == PARSEC_HOOK_RETURN_DONE);      /* bounded stand-in: generations that finish within RMAX calls */
@@ -318,5 +362,8 @@ void h_startup(void)
             V_ASSERT(g_visit[a][b][c] == 0, "C01.startup.post.no_other_instance_created");
     }
     V_ASSERT(g_scheduled == n_startup && n_startup <= n_local, "C01.startup.post.created_tasks_are_among_the_counted_ones");
+#ifdef MIN_CALLS          /* chunked jobs, non-vacuity: this configuration does make the generator yield and be re-entered */
+    V_ASSERT(g_calls >= MIN_CALLS, "C01.startup_chunked.lemma.configuration_reenters_the_generator");
+#endif
     V_CANARY("startup");
 }
